@@ -50,6 +50,9 @@ class CompareOp(PureExec):
         elif self.op_type == CompareOpType.EQ:
             code = f"EQ({self.ops[0].il_read()}, {self.ops[1].il_read()})"
         elif self.op_type == CompareOpType.NE:
+            if is_float:
+                # The negation is a bool operation. Only the comparison has a float variant.
+                return f"INV(FEQ({self.ops[0].il_read()}, {self.ops[1].il_read()}))"
             code = f"INV(EQ({self.ops[0].il_read()}, {self.ops[1].il_read()}))"
         else:
             raise NotImplementedError(
